@@ -90,7 +90,9 @@ PROPS = {
                        "records exactly the 0-based line and the column where the statement begins (both decompilers); "
                        "one step covers outputs of any length. (S2) call protocol of the statement-writing handlers that "
                        "run without graph state; (S3) the source map returned with a fallback answer. Concrete decompilations of F6 "
-                       "inputs are checked entry by entry against the emitted text (E3, replayable violations).",
+                       "inputs are checked entry by entry (E3, replayable violations): key is an input offset, position is "
+                       "the start of a statement, the line agrees with the source map obtained by compiling the emitted text "
+                       "(third clause of the property), and every op printed as a statement of its own has an entry.",
         "technique": "CrossHair+z3 symbolic execution of the real writer methods (inductive invariant step) and of the "
                      "write handlers on recording stand-ins",
         "level_text": "The invariant step is solver-decided for all statement texts up to the bound from a case-split set "
@@ -231,7 +233,9 @@ PROPS = {
         "level": "other",
         "explanation": "E4 (enumerated inputs F6: compiler output of F1-F4 and seeded raw well-formed op lists): the "
                        "real convert() must return (text, map) within the time limit; a fallback answer (marker line) "
-                       "is compiled by the real ExplorerScript compiler and compared with the input op for op. "
+                       "is compiled by the real ExplorerScript compiler and compared with the input op for op; for inputs "
+                       "that decompile structurally the writer is then made to fail after the real structuring passes ran, "
+                       "and the forced fallback answer must still be the input op for op. "
                        "Solver-decided parts (marker parsing for all bodies, exception funnel, fallback exactness over "
                        "symbolic op lists) are Engine X obligations.",
         "technique": "CrossHair symbolic execution of marker parsing / exception funnel / SsbScript round trip; "
